@@ -30,3 +30,11 @@ claim("C20",
       "sum over atoms equals the documented formula.",
       "Floats as reals (L-FLOAT); numpy/ASE shims are assumed contracts (A-NP, A-ASE); translation covariance of the circular mean and the eigen-solver are not machine-checked.",
       "symbolic execution of the real source + z3 (linearised abstraction, nonlinear lemmas)", "DESIGN.md §3 C20")
+
+claim("C15",
+      "get_is_chiral is executed symbolically from its real source over a symbolic-length sequence of integer rotation matrices, with np.linalg.det under an "
+      "error-bounded floating-point contract (|computed - exact| <= delta < 1/2, not exactness) and a loop invariant 'no improper operation so far': "
+      "post-condition result <=> no rotation has determinant -1, for every delta and every sequence. Basis independence: det(AB)=det A det B (polynomial identity). "
+      "Table part: SPACE_GROUP_INFO point group is proper <=> the Hall-database group is Sohncke, for all 230 groups (exactly 65).",
+      "A-SPG: spglib returns the complete set of unimodular integer rotations of the detected group; LU error bound for det; spglib Hall database as reference.",
+      "symbolic execution with loop invariant + z3; exhaustive table obligations", "DESIGN.md §3 C15")
